@@ -114,9 +114,16 @@ CbFails(c) ==
     (IF (st = "global" /\ step = "Detailed") \/ (st # "global" /\ step # "Detailed")
      THEN {F("C10", <<"unexpected callback step", st, step>>, "cb-step")} ELSE {})
 
+\* implementation-shaped layer (informational): the first legalization of a LegalizeCases circuit against LegalizeImpl.Result
+ImplNote(c, returned) ==
+    IF call.stage = "legalize" /\ call.entry = base /\ "impl" \in DOMAIN params
+    THEN {F("note", <<"impl">>, IF params.impl.ok = returned /\ (~returned \/ [i \in 1..Len(c.cells) |-> <<c.cells[i].x, c.cells[i].y, c.cells[i].o>>] = params.impl.pos)
+                                 THEN "impl-same" ELSE "impl-diff")}
+    ELSE {}
 RetFails(c) ==
     LET st == call.stage o == call.obj IN
     IF ~IsFinite(c) \/ ~IsFinite(call.entry) THEN FiniteFails(c) ELSE
+    ImplNote(c, TRUE) \cup
     InflightFails \cup FrameFails(c, st = "global") \cup WlFails(c) \cup FiniteFails(c) \cup
     (IF st = "legalize"
      THEN LegalFails("C01", c) \cup OrientFails(call.entry, c) \cup
@@ -145,7 +152,7 @@ RetFails(c) ==
 ThrowFails(c) ==
     LET st == call.stage o == call.obj IN
     IF ~IsFinite(c) \/ ~IsFinite(call.entry) THEN FiniteFails(c) ELSE
-    FrameFails(c, st = "global") \cup
+    ImplNote(c, FALSE) \cup FrameFails(c, st = "global") \cup
     (IF call.thrower # "none" THEN {}   \* the harness's own callback threw: covered by the protocol checks (C10)
      ELSE IF expect = "reject"
      THEN (IF call.ncb = 0 /\ Placement(c) = Placement(call.entry) THEN {}
